@@ -41,7 +41,7 @@ def canon(x):
         if a.dtype.kind == "f":
             a = a.copy()
             a[numpy.isnan(a)] = numpy.nan  # one NaN payload
-            a = a + 0.0                    # -0.0 stays -0.0 (observable via 1/x), keep
+            a = a + 0.0                    # -0.0 and +0.0 are one state
         return ("a", a.dtype.str, a.shape, a.tobytes())
     if isinstance(x, numpy.generic):
         return canon(x.item())
@@ -215,11 +215,18 @@ def require(cond, sig, detail="", case=None):
 
 # ----------------------------------------------------------------------------
 def load_known():
-    p = os.path.join(VERIF, "known_findings.json")
-    if not os.path.exists(p):
-        return []
-    with open(p) as f:
-        return json.load(f).get("findings", [])
+    """known_findings.json plus per-property fragments known_findings.d/*.json (all committed,
+    never written at run time)."""
+    out = []
+    paths = [os.path.join(VERIF, "known_findings.json")]
+    d = os.path.join(VERIF, "known_findings.d")
+    if os.path.isdir(d):
+        paths += [os.path.join(d, f) for f in sorted(os.listdir(d)) if f.endswith(".json")]
+    for p in paths:
+        if os.path.exists(p):
+            with open(p) as f:
+                out += json.load(f).get("findings", [])
+    return out
 
 
 def match_known(pid, sig, known):
